@@ -1,5 +1,494 @@
-(* Props/C12.v — PLACEHOLDER created by the check-writer for local testing only; to be replaced by the
-   real theorems of property C12. *)
-Example C12_placeholder : True.
-Proof. exact I. Qed.
-Print Assumptions C12_placeholder.
+(* Props/C12.v — the CLI's exit status is truthful and results do not depend on how I/O is wired.
+
+   Models: Model/Cli.v (commands.rs over an explicit world: file system, environment, stdin; ONE terminal
+   configuration: no tty, so passwords come from KESTREL_PASSWORD), Model/CliParse.v + Model/Getopts.v (main.rs argument
+   parsing over a transcription of getopts' long_only subset), Model/CliGlue.v (main = parse, then dispatch).
+   All theorems quantify over the primitives P and the keyring functions (validators, unlock, lock, decode/encode,
+   UTF-8 codec): they hold whatever these are.
+
+   What is proved:
+     - exit code 0 <=> the command's status is a success, for all seven commands and for main as a whole; every other
+       exit code is 1, except 101 for a modelled Rust panic (102 marks the library model's fuel artefact, excluded by the
+       library theorems); help/version exit 0, usage errors exit 1 and leave the file system alone;
+     - a successful decrypt / password decrypt delivered (to -o F or stdout) exactly the bytes a library run that
+       returned Ok wrote; CHAINED with the chunk-layer authenticity theorem lifted through the file header: under the
+       no-forgery premise over that run's log these bytes are the COMPLETE honest plaintext;
+     - after a successful key decrypt the status names the unique keyring entry whose public-key string equals the
+       encoding of the authenticated sender key, else carries that encoding ("unknown key");
+     - wiring: input as file argument or on stdin; output to -o F or stdout; keyring by -k or KESTREL_KEYRING: identical
+       results (whole result records equal, or equal status / exit code / delivered bytes for the output wiring);
+     - command aliases (enc/encrypt, dec/decrypt, pass/password, key gen/generate, -v/--version) and option spellings
+       (long or short name, one or two dashes, separate or '=' value, any order) parse to the same command, hence the
+       whole program gives the same result; the parser never panics.
+   PARTIAL / not covered: the text on stderr (the "Error: ..." line, the sender line) is represented only by the
+   status value, not as bytes; terminal prompts; real file-system and OS errors; invalid-UTF-8 arguments; encrypt
+   commands under different wirings are compared as whole result records for the same random blocks (the harness
+   compares recovered plaintexts).  The no-forgery premise is the AEAD's security, not proved here. *)
+From Kestrel Require Import Bytes Outcome IO Prims.
+From Kestrel.gen Require Import Extracted.
+From Kestrel.Model Require Import AeadWrap Chunks Noise Files KeyringText Getopts CliParse CliParseSpec Cli CliGlue Combine2Defs.
+From Kestrel.Proofs Require Import ChunksAuth CliFacts CliParseFacts Combine2Cli Combine2Main.
+From Coq Require Import Permutation.
+Local Open Scope N_scope.
+
+(* exit code 0 exactly when the command's status is a success (SOk / SOkFrom / SOkUnknownSender), all commands *)
+Theorem C12_exit_iff_ok :
+  forall (P : prims) (pk_ok sk_ok : text -> bool) (unlock : text -> bytes -> outcome kerr bytes)
+         (lock : bytes -> bytes -> bytes -> text) (decode_pk : text -> outcome kerr bytes) (encode_pk : bytes -> text)
+         (sk_string_ok : text -> bool) (utf8_decode : bytes -> option text) (utf8_encode : text -> bytes),
+  (forall w o fpk fe, exit_code (cmd_encrypt P pk_ok sk_ok unlock decode_pk utf8_decode w o fpk fe) = 0 <-> is_success (status (cmd_encrypt P pk_ok sk_ok unlock decode_pk utf8_decode w o fpk fe)) = true) /\
+  (forall w o, exit_code (cmd_decrypt P pk_ok sk_ok unlock decode_pk encode_pk utf8_decode w o) = 0 <-> is_success (status (cmd_decrypt P pk_ok sk_ok unlock decode_pk encode_pk utf8_decode w o)) = true) /\
+  (forall w o salt, exit_code (cmd_pass_encrypt P w o salt) = 0 <-> is_success (status (cmd_pass_encrypt P w o salt)) = true) /\
+  (forall w o, exit_code (cmd_pass_decrypt P w o) = 0 <-> is_success (status (cmd_pass_decrypt P w o)) = true) /\
+  (forall w o sk salt, exit_code (cmd_gen_key P lock encode_pk utf8_decode utf8_encode w o sk salt) = 0 <-> is_success (status (cmd_gen_key P lock encode_pk utf8_decode utf8_encode w o sk salt)) = true) /\
+  (forall w sk e salt, exit_code (cmd_change_pass unlock lock sk_string_ok utf8_encode w sk e salt) = 0 <-> is_success (status (cmd_change_pass unlock lock sk_string_ok utf8_encode w sk e salt)) = true) /\
+  (forall w sk e, exit_code (cmd_extract_pub P unlock encode_pk sk_string_ok utf8_encode w sk e) = 0 <-> is_success (status (cmd_extract_pub P unlock encode_pk sk_string_ok utf8_encode w sk e)) = true).
+Proof. exact exit_iff_ok. Qed.
+Print Assumptions C12_exit_iff_ok.
+
+(* the exit code is a function of the status: code_of st = 0 for a success, 101 for SPanic, 102 for SOutOfFuel, else 1 *)
+Theorem C12_exit_code_of_status :
+  forall (P : prims) (pk_ok sk_ok : text -> bool) (unlock : text -> bytes -> outcome kerr bytes)
+         (lock : bytes -> bytes -> bytes -> text) (decode_pk : text -> outcome kerr bytes) (encode_pk : bytes -> text)
+         (sk_string_ok : text -> bool) (utf8_decode : bytes -> option text) (utf8_encode : text -> bytes),
+  (forall w o fpk fe, exit_code (cmd_encrypt P pk_ok sk_ok unlock decode_pk utf8_decode w o fpk fe) = code_of (status (cmd_encrypt P pk_ok sk_ok unlock decode_pk utf8_decode w o fpk fe))) /\
+  (forall w o, exit_code (cmd_decrypt P pk_ok sk_ok unlock decode_pk encode_pk utf8_decode w o) = code_of (status (cmd_decrypt P pk_ok sk_ok unlock decode_pk encode_pk utf8_decode w o))) /\
+  (forall w o salt, exit_code (cmd_pass_encrypt P w o salt) = code_of (status (cmd_pass_encrypt P w o salt))) /\
+  (forall w o, exit_code (cmd_pass_decrypt P w o) = code_of (status (cmd_pass_decrypt P w o))) /\
+  (forall w o sk salt, exit_code (cmd_gen_key P lock encode_pk utf8_decode utf8_encode w o sk salt) = code_of (status (cmd_gen_key P lock encode_pk utf8_decode utf8_encode w o sk salt))) /\
+  (forall w sk e salt, exit_code (cmd_change_pass unlock lock sk_string_ok utf8_encode w sk e salt) = code_of (status (cmd_change_pass unlock lock sk_string_ok utf8_encode w sk e salt))) /\
+  (forall w sk e, exit_code (cmd_extract_pub P unlock encode_pk sk_string_ok utf8_encode w sk e) = code_of (status (cmd_extract_pub P unlock encode_pk sk_string_ok utf8_encode w sk e))).
+Proof. exact exit_code_of_status. Qed.
+Print Assumptions C12_exit_code_of_status.
+
+(* code_of takes the values 0, 1, 101 (only for a modelled panic), 102 (only for the model's fuel artefact) *)
+Theorem C12_code_of_values :
+  forall st : cmd_status, code_of st = 0 \/ code_of st = 1 \/
+    (code_of st = 101 /\ exists t, st = SPanic t) \/ (code_of st = 102 /\ st = SOutOfFuel).
+Proof. exact code_of_values. Qed.
+Print Assumptions C12_code_of_values.
+
+(* main as a whole (parse + dispatch): exit code 0, 1, or 101 only with a modelled panic status of a command; the
+   argument parser itself never panics *)
+Theorem C12_main_exit_code :
+  forall (P : prims) (pk_ok sk_ok : text -> bool) (unlock : text -> bytes -> outcome kerr bytes)
+         (lock : bytes -> bytes -> bytes -> text) (decode_pk : text -> outcome kerr bytes) (encode_pk : bytes -> text)
+         (sk_string_ok : text -> bool) (utf8_decode : bytes -> option text) (utf8_encode : text -> bytes) (help_text version_text : bytes)
+         (w : world) (argv : list text) (r1 r2 : bytes),
+  m_exit (cli_main P pk_ok sk_ok unlock lock decode_pk encode_pk sk_string_ok utf8_decode utf8_encode help_text version_text w argv r1 r2) = 0 \/
+  m_exit (cli_main P pk_ok sk_ok unlock lock decode_pk encode_pk sk_string_ok utf8_decode utf8_encode help_text version_text w argv r1 r2) = 1 \/
+  (m_exit (cli_main P pk_ok sk_ok unlock lock decode_pk encode_pk sk_string_ok utf8_decode utf8_encode help_text version_text w argv r1 r2) = 101 /\
+   exists t, m_status (cli_main P pk_ok sk_ok unlock lock decode_pk encode_pk sk_string_ok utf8_decode utf8_encode help_text version_text w argv r1 r2) = MCmd (SPanic t)) \/
+  (m_exit (cli_main P pk_ok sk_ok unlock lock decode_pk encode_pk sk_string_ok utf8_decode utf8_encode help_text version_text w argv r1 r2) = 102 /\
+   m_status (cli_main P pk_ok sk_ok unlock lock decode_pk encode_pk sk_string_ok utf8_decode utf8_encode help_text version_text w argv r1 r2) = MCmd SOutOfFuel).
+Proof. intros; apply cli_main_exit_code. Qed.
+Print Assumptions C12_main_exit_code.
+
+(* main exits 0 exactly for help, version, and a command whose status is a success *)
+Theorem C12_main_exit_zero_iff :
+  forall (P : prims) (pk_ok sk_ok : text -> bool) (unlock : text -> bytes -> outcome kerr bytes)
+         (lock : bytes -> bytes -> bytes -> text) (decode_pk : text -> outcome kerr bytes) (encode_pk : bytes -> text)
+         (sk_string_ok : text -> bool) (utf8_decode : bytes -> option text) (utf8_encode : text -> bytes) (help_text version_text : bytes)
+         (w : world) (argv : list text) (r1 r2 : bytes),
+  m_exit (cli_main P pk_ok sk_ok unlock lock decode_pk encode_pk sk_string_ok utf8_decode utf8_encode help_text version_text w argv r1 r2) = 0 <->
+  (m_status (cli_main P pk_ok sk_ok unlock lock decode_pk encode_pk sk_string_ok utf8_decode utf8_encode help_text version_text w argv r1 r2) = MHelp \/
+   m_status (cli_main P pk_ok sk_ok unlock lock decode_pk encode_pk sk_string_ok utf8_decode utf8_encode help_text version_text w argv r1 r2) = MVersion \/
+   exists st, m_status (cli_main P pk_ok sk_ok unlock lock decode_pk encode_pk sk_string_ok utf8_decode utf8_encode help_text version_text w argv r1 r2) = MCmd st /\ is_success st = true).
+Proof. intros; apply cli_main_exit_zero_iff. Qed.
+Print Assumptions C12_main_exit_zero_iff.
+
+(* bad arguments (usage error): exit 1, nothing on stdout, the file system untouched (this is C13's 'bad arguments') *)
+Theorem C12_usage_error_leaves_fs :
+  forall (P : prims) (pk_ok sk_ok : text -> bool) (unlock : text -> bytes -> outcome kerr bytes)
+         (lock : bytes -> bytes -> bytes -> text) (decode_pk : text -> outcome kerr bytes) (encode_pk : bytes -> text)
+         (sk_string_ok : text -> bool) (utf8_decode : bytes -> option text) (utf8_encode : text -> bytes) (help_text version_text : bytes)
+         (w : world) (argv : list text) (r1 r2 : bytes) (m : usage_msg),
+  m_status (cli_main P pk_ok sk_ok unlock lock decode_pk encode_pk sk_string_ok utf8_decode utf8_encode help_text version_text w argv r1 r2) = MUsage m ->
+  m_exit (cli_main P pk_ok sk_ok unlock lock decode_pk encode_pk sk_string_ok utf8_decode utf8_encode help_text version_text w argv r1 r2) = 1 /\
+  m_fs (cli_main P pk_ok sk_ok unlock lock decode_pk encode_pk sk_string_ok utf8_decode utf8_encode help_text version_text w argv r1 r2) = fs w /\
+  m_stdout (cli_main P pk_ok sk_ok unlock lock decode_pk encode_pk sk_string_ok utf8_decode utf8_encode help_text version_text w argv r1 r2) = [].
+Proof. intros until m; apply cli_main_usage_error_leaves_fs. Qed.
+Print Assumptions C12_usage_error_leaves_fs.
+
+(* ... and main reports a usage error exactly when the parser produced one *)
+Theorem C12_usage_iff :
+  forall (P : prims) (pk_ok sk_ok : text -> bool) (unlock : text -> bytes -> outcome kerr bytes)
+         (lock : bytes -> bytes -> bytes -> text) (decode_pk : text -> outcome kerr bytes) (encode_pk : bytes -> text)
+         (sk_string_ok : text -> bool) (utf8_decode : bytes -> option text) (utf8_encode : text -> bytes) (help_text version_text : bytes)
+         (w : world) (argv : list text) (r1 r2 : bytes) (m : usage_msg),
+  m_status (cli_main P pk_ok sk_ok unlock lock decode_pk encode_pk sk_string_ok utf8_decode utf8_encode help_text version_text w argv r1 r2) = MUsage m <-> cli_parse argv = Ok (CUsageError m).
+Proof. intros; apply cli_main_usage_iff. Qed.
+Print Assumptions C12_usage_iff.
+
+(* the argument parser never panics (every indexing / unwrap of main.rs's parse functions is an explicit Panic in the model) *)
+Theorem C12_cli_parse_no_panic :
+  forall argv : list text, exists c : command, cli_parse argv = Ok c.
+Proof. exact cli_parse_no_panic. Qed.
+Print Assumptions C12_cli_parse_no_panic.
+
+(* a successful key decrypt delivered exactly the w_out of a library run (script-free io state on the input bytes)
+   that returned Ok; the input bytes are the file argument's content or stdin *)
+Theorem C12_decrypt_success_delivers :
+  forall (P : prims) (pk_ok sk_ok : text -> bool) (unlock : text -> bytes -> outcome kerr bytes)
+         (decode_pk : text -> outcome kerr bytes) (encode_pk : bytes -> text) (utf8_decode : bytes -> option text)
+         (w : world) (o : dec_opts),
+  is_success (status (cmd_decrypt P pk_ok sk_ok unlock decode_pk encode_pk utf8_decode w o)) = true ->
+  exists (j : dec_job) (sender : bytes) (s' : io),
+    decrypt_plan pk_ok sk_ok unlock decode_pk utf8_decode w o = inr j /\
+    key_decrypt P (dj_r j) (dj_rpk j) (io0 (dj_input j)) = (Ok sender, s') /\
+    resolve_input w (do_infile o) = inr (dj_input j) /\
+    status (cmd_decrypt P pk_ok sk_ok unlock decode_pk encode_pk utf8_decode w o) = sender_status encode_pk (dj_keys j) sender /\
+    match do_outfile o with
+    | Some F => fs_get (new_fs (cmd_decrypt P pk_ok sk_ok unlock decode_pk encode_pk utf8_decode w o)) F = Some (w_out (wtr s')) /\
+                (forall q, q <> F -> fs_get (new_fs (cmd_decrypt P pk_ok sk_ok unlock decode_pk encode_pk utf8_decode w o)) q = fs_get (fs w) q) /\
+                stdout (cmd_decrypt P pk_ok sk_ok unlock decode_pk encode_pk utf8_decode w o) = []
+    | None => stdout (cmd_decrypt P pk_ok sk_ok unlock decode_pk encode_pk utf8_decode w o) = w_out (wtr s') /\ new_fs (cmd_decrypt P pk_ok sk_ok unlock decode_pk encode_pk utf8_decode w o) = fs w
+    end.
+Proof. exact decrypt_success_delivers. Qed.
+Print Assumptions C12_decrypt_success_delivers.
+
+(* the same for password decrypt *)
+Theorem C12_pass_decrypt_success_delivers :
+  forall (P : prims) (w : world) (o : pw_opts),
+  is_success (status (cmd_pass_decrypt P w o)) = true ->
+  exists (j : pw_job) (s' : io),
+    pass_decrypt_plan w o = inr j /\
+    pass_decrypt P (pj_pw j) (io0 (pj_input j)) = (Ok tt, s') /\
+    resolve_input w (po_infile o) = inr (pj_input j) /\
+    ask_pass w (po_env_pass o) = inr (pj_pw j) /\
+    status (cmd_pass_decrypt P w o) = SOk /\
+    match po_outfile o with
+    | Some F => fs_get (new_fs (cmd_pass_decrypt P w o)) F = Some (w_out (wtr s')) /\
+                (forall q, q <> F -> fs_get (new_fs (cmd_pass_decrypt P w o)) q = fs_get (fs w) q) /\
+                stdout (cmd_pass_decrypt P w o) = []
+    | None => stdout (cmd_pass_decrypt P w o) = w_out (wtr s') /\ new_fs (cmd_pass_decrypt P w o) = fs w
+    end.
+Proof. exact pass_decrypt_success_delivers. Qed.
+Print Assumptions C12_pass_decrypt_success_delivers.
+
+(* CHAIN with the library: exit 0 for `decrypt` => the input is prologue ++ 128-byte handshake message ++ rest, the
+   handshake verified giving (payload key, sender key spk, handshake hash), the status names spk, and — for every honest
+   chunk list such that no successful AEAD open of THAT run is a forgery under the derived file key — the delivered
+   bytes (file F or stdout; delivered = Model/Combine2Defs.v) are exactly the complete plaintext concat chunks *)
+Theorem C12_cli_decrypt_ok_is_complete_plaintext :
+  forall (P : prims) (pk_ok sk_ok : text -> bool) (unlock : text -> bytes -> outcome kerr bytes)
+         (decode_pk : text -> outcome kerr bytes) (encode_pk : bytes -> text) (utf8_decode : bytes -> option text),
+  aead_ok P -> hash_ok P ->
+  forall (w : world) (o : dec_opts),
+  is_success (status (cmd_decrypt P pk_ok sk_ok unlock decode_pk encode_pk utf8_decode w o)) = true ->
+  exists (j : dec_job) (msg rest payload spk hh : bytes) (s' : io),
+    decrypt_plan pk_ok sk_ok unlock decode_pk utf8_decode w o = inr j /\ resolve_input w (do_infile o) = inr (dj_input j) /\
+    dj_input j = x_prologue ++ msg ++ rest /\ length msg = 128%nat /\
+    noise_decrypt P (dj_r j) (dj_rpk j) x_prologue msg = Ok (payload, spk, hh) /\
+    key_decrypt P (dj_r j) (dj_rpk j) (io0 (dj_input j)) = (Ok spk, s') /\
+    status (cmd_decrypt P pk_ok sk_ok unlock decode_pk encode_pk utf8_decode w o) = sender_status encode_pk (dj_keys j) spk /\
+    delivered (do_outfile o) (cmd_decrypt P pk_ok sk_ok unlock decode_pk encode_pk utf8_decode w o) = Some (w_out (wtr s')) /\
+    forall chunks : list bytes, no_forgery P (file_key P payload hh) [] chunks (log s') ->
+      delivered (do_outfile o) (cmd_decrypt P pk_ok sk_ok unlock decode_pk encode_pk utf8_decode w o) = Some (concat chunks).
+Proof. exact cli_decrypt_ok_is_complete_plaintext. Qed.
+Print Assumptions C12_cli_decrypt_ok_is_complete_plaintext.
+
+(* the same chain for `password decrypt`: input = magic ++ 32-byte salt ++ rest, key = scrypt(password, salt) *)
+Theorem C12_cli_pass_decrypt_ok_is_complete_plaintext :
+  forall (P : prims), aead_ok P -> hash_ok P ->
+  forall (w : world) (o : pw_opts),
+  is_success (status (cmd_pass_decrypt P w o)) = true ->
+  exists (input pw salt rest : bytes) (s' : io),
+    resolve_input w (po_infile o) = inr input /\ ask_pass w (po_env_pass o) = inr pw /\
+    input = x_pass_file_magic ++ salt ++ rest /\ length salt = 32%nat /\
+    pass_decrypt P pw (io0 input) = (Ok tt, s') /\
+    delivered (po_outfile o) (cmd_pass_decrypt P w o) = Some (w_out (wtr s')) /\
+    forall chunks : list bytes, no_forgery P (kdf P pw salt) x_pass_file_magic chunks (log s') ->
+      delivered (po_outfile o) (cmd_pass_decrypt P w o) = Some (concat chunks).
+Proof. exact cli_pass_decrypt_ok_is_complete_plaintext. Qed.
+Print Assumptions C12_cli_pass_decrypt_ok_is_complete_plaintext.
+
+(* after a successful key decrypt the status names the FIRST keyring entry whose public-key string equals
+   encode_pk sender; the keyring came out of parse_config, so public keys and names are pairwise different and that
+   entry is the only one; with no such entry the status carries the encoded key ("unknown key") *)
+Theorem C12_sender_named :
+  forall (P : prims) (pk_ok sk_ok : text -> bool) (unlock : text -> bytes -> outcome kerr bytes)
+         (decode_pk : text -> outcome kerr bytes) (encode_pk : bytes -> text) (utf8_decode : bytes -> option text)
+         (w : world) (o : dec_opts),
+  is_success (status (cmd_decrypt P pk_ok sk_ok unlock decode_pk encode_pk utf8_decode w o)) = true ->
+  exists (j : dec_job) (sender : bytes) (s' : io),
+    decrypt_plan pk_ok sk_ok unlock decode_pk utf8_decode w o = inr j /\
+    key_decrypt P (dj_r j) (dj_rpk j) (io0 (dj_input j)) = (Ok sender, s') /\
+    resolve_keyring pk_ok sk_ok utf8_decode w (do_keyring o) = inr (dj_keys j) /\
+    status (cmd_decrypt P pk_ok sk_ok unlock decode_pk encode_pk utf8_decode w o) =
+      match find (fun e => text_eqb (k_pub e) (encode_pk sender)) (dj_keys j) with
+      | Some e => SOkFrom (k_name e)
+      | None => SOkUnknownSender (encode_pk sender)
+      end /\
+    NoDup (map k_pub (dj_keys j)) /\ NoDup (map k_name (dj_keys j)) /\
+    (forall e, In e (dj_keys j) -> k_pub e = encode_pk sender -> status (cmd_decrypt P pk_ok sk_ok unlock decode_pk encode_pk utf8_decode w o) = SOkFrom (k_name e)) /\
+    ((forall e, In e (dj_keys j) -> k_pub e <> encode_pk sender) ->
+     status (cmd_decrypt P pk_ok sk_ok unlock decode_pk encode_pk utf8_decode w o) = SOkUnknownSender (encode_pk sender)).
+Proof. exact sender_named. Qed.
+Print Assumptions C12_sender_named.
+
+(* input wiring, decrypt: the file argument p holding B, or B on stdin (out <> p, else the first form is refused): the SAME result record *)
+Theorem C12_decrypt_input_wiring :
+  forall (P : prims) (pk_ok sk_ok : text -> bool) (unlock : text -> bytes -> outcome kerr bytes)
+         (decode_pk : text -> outcome kerr bytes) (encode_pk : bytes -> text) (utf8_decode : bytes -> option text)
+         (fsy : fsys) (ep enp : option bytes) (ek : option text) (sin : bytes) (p : text) (B : bytes) (t : text)
+         (out k : option text) (e : bool),
+  fs_get fsy p = Some B -> out <> Some p ->
+  cmd_decrypt P pk_ok sk_ok unlock decode_pk encode_pk utf8_decode {| fs := fsy; env_password := ep; env_new_password := enp; env_keyring := ek; stdin := sin |} {| do_infile := Some p; do_to := t; do_outfile := out; do_keyring := k; do_env_pass := e |}
+  = cmd_decrypt P pk_ok sk_ok unlock decode_pk encode_pk utf8_decode {| fs := fsy; env_password := ep; env_new_password := enp; env_keyring := ek; stdin := B |} {| do_infile := None; do_to := t; do_outfile := out; do_keyring := k; do_env_pass := e |}.
+Proof. exact decrypt_input_wiring. Qed.
+Print Assumptions C12_decrypt_input_wiring.
+
+(* input wiring, password decrypt *)
+Theorem C12_pass_decrypt_input_wiring :
+  forall (P : prims) (fsy : fsys) (ep enp : option bytes) (ek : option text) (sin : bytes) (p : text) (B : bytes)
+         (out : option text) (e : bool),
+  fs_get fsy p = Some B -> out <> Some p ->
+  cmd_pass_decrypt P {| fs := fsy; env_password := ep; env_new_password := enp; env_keyring := ek; stdin := sin |} {| po_infile := Some p; po_outfile := out; po_env_pass := e |}
+  = cmd_pass_decrypt P {| fs := fsy; env_password := ep; env_new_password := enp; env_keyring := ek; stdin := B |} {| po_infile := None; po_outfile := out; po_env_pass := e |}.
+Proof. exact pass_decrypt_input_wiring. Qed.
+Print Assumptions C12_pass_decrypt_input_wiring.
+
+(* input wiring, encrypt (same random blocks) *)
+Theorem C12_encrypt_input_wiring :
+  forall (P : prims) (pk_ok sk_ok : text -> bool) (unlock : text -> bytes -> outcome kerr bytes)
+         (decode_pk : text -> outcome kerr bytes) (utf8_decode : bytes -> option text)
+         (fsy : fsys) (ep enp : option bytes) (ek : option text) (sin : bytes) (p : text) (B : bytes) (t f : text)
+         (out k : option text) (e : bool) (fpk fe : bytes),
+  fs_get fsy p = Some B -> out <> Some p ->
+  cmd_encrypt P pk_ok sk_ok unlock decode_pk utf8_decode {| fs := fsy; env_password := ep; env_new_password := enp; env_keyring := ek; stdin := sin |} {| eo_infile := Some p; eo_to := t; eo_from := f; eo_outfile := out; eo_keyring := k; eo_env_pass := e |} fpk fe
+  = cmd_encrypt P pk_ok sk_ok unlock decode_pk utf8_decode {| fs := fsy; env_password := ep; env_new_password := enp; env_keyring := ek; stdin := B |} {| eo_infile := None; eo_to := t; eo_from := f; eo_outfile := out; eo_keyring := k; eo_env_pass := e |} fpk fe.
+Proof. exact encrypt_input_wiring. Qed.
+Print Assumptions C12_encrypt_input_wiring.
+
+(* input wiring, password encrypt (same salt) *)
+Theorem C12_pass_encrypt_input_wiring :
+  forall (P : prims) (fsy : fsys) (ep enp : option bytes) (ek : option text) (sin : bytes) (p : text) (B : bytes)
+         (out : option text) (e : bool) (salt : bytes),
+  fs_get fsy p = Some B -> out <> Some p ->
+  cmd_pass_encrypt P {| fs := fsy; env_password := ep; env_new_password := enp; env_keyring := ek; stdin := sin |} {| po_infile := Some p; po_outfile := out; po_env_pass := e |} salt
+  = cmd_pass_encrypt P {| fs := fsy; env_password := ep; env_new_password := enp; env_keyring := ek; stdin := B |} {| po_infile := None; po_outfile := out; po_env_pass := e |} salt.
+Proof. exact pass_encrypt_input_wiring. Qed.
+Print Assumptions C12_pass_encrypt_input_wiring.
+
+(* output wiring, decrypt: -o F (F different from the input path, prior state of F arbitrary) versus stdout: same status
+   and exit code; nothing else changes; as soon as one write/flush call was made — in particular whenever the command
+   succeeds — the content of F equals the stdout bytes of the other wiring; with no such call F is left as it was *)
+Theorem C12_decrypt_output_wiring :
+  forall (P : prims) (pk_ok sk_ok : text -> bool) (unlock : text -> bytes -> outcome kerr bytes)
+         (decode_pk : text -> outcome kerr bytes) (encode_pk : bytes -> text) (utf8_decode : bytes -> option text)
+         (w : world) (i : option text) (t F : text) (k : option text) (e : bool),
+  i <> Some F ->
+  status (cmd_decrypt P pk_ok sk_ok unlock decode_pk encode_pk utf8_decode w {| do_infile := i; do_to := t; do_outfile := (Some F); do_keyring := k; do_env_pass := e |}) = status (cmd_decrypt P pk_ok sk_ok unlock decode_pk encode_pk utf8_decode w {| do_infile := i; do_to := t; do_outfile := None; do_keyring := k; do_env_pass := e |}) /\
+  exit_code (cmd_decrypt P pk_ok sk_ok unlock decode_pk encode_pk utf8_decode w {| do_infile := i; do_to := t; do_outfile := (Some F); do_keyring := k; do_env_pass := e |}) = exit_code (cmd_decrypt P pk_ok sk_ok unlock decode_pk encode_pk utf8_decode w {| do_infile := i; do_to := t; do_outfile := None; do_keyring := k; do_env_pass := e |}) /\
+  stdout (cmd_decrypt P pk_ok sk_ok unlock decode_pk encode_pk utf8_decode w {| do_infile := i; do_to := t; do_outfile := (Some F); do_keyring := k; do_env_pass := e |}) = [] /\ new_fs (cmd_decrypt P pk_ok sk_ok unlock decode_pk encode_pk utf8_decode w {| do_infile := i; do_to := t; do_outfile := None; do_keyring := k; do_env_pass := e |}) = fs w /\
+  (forall q, q <> F -> fs_get (new_fs (cmd_decrypt P pk_ok sk_ok unlock decode_pk encode_pk utf8_decode w {| do_infile := i; do_to := t; do_outfile := (Some F); do_keyring := k; do_env_pass := e |})) q = fs_get (fs w) q) /\
+  (forall j, decrypt_plan pk_ok sk_ok unlock decode_pk utf8_decode w {| do_infile := i; do_to := t; do_outfile := None; do_keyring := k; do_env_pass := e |} = inr j -> sink_touched (snd (run_dec P j)) = true ->
+     fs_get (new_fs (cmd_decrypt P pk_ok sk_ok unlock decode_pk encode_pk utf8_decode w {| do_infile := i; do_to := t; do_outfile := (Some F); do_keyring := k; do_env_pass := e |})) F = Some (stdout (cmd_decrypt P pk_ok sk_ok unlock decode_pk encode_pk utf8_decode w {| do_infile := i; do_to := t; do_outfile := None; do_keyring := k; do_env_pass := e |}))) /\
+  (forall j, decrypt_plan pk_ok sk_ok unlock decode_pk utf8_decode w {| do_infile := i; do_to := t; do_outfile := None; do_keyring := k; do_env_pass := e |} = inr j -> sink_touched (snd (run_dec P j)) = false -> new_fs (cmd_decrypt P pk_ok sk_ok unlock decode_pk encode_pk utf8_decode w {| do_infile := i; do_to := t; do_outfile := (Some F); do_keyring := k; do_env_pass := e |}) = fs w) /\
+  (is_success (status (cmd_decrypt P pk_ok sk_ok unlock decode_pk encode_pk utf8_decode w {| do_infile := i; do_to := t; do_outfile := None; do_keyring := k; do_env_pass := e |})) = true -> fs_get (new_fs (cmd_decrypt P pk_ok sk_ok unlock decode_pk encode_pk utf8_decode w {| do_infile := i; do_to := t; do_outfile := (Some F); do_keyring := k; do_env_pass := e |})) F = Some (stdout (cmd_decrypt P pk_ok sk_ok unlock decode_pk encode_pk utf8_decode w {| do_infile := i; do_to := t; do_outfile := None; do_keyring := k; do_env_pass := e |}))).
+Proof. exact decrypt_output_wiring. Qed.
+Print Assumptions C12_decrypt_output_wiring.
+
+(* output wiring, password decrypt *)
+Theorem C12_pass_decrypt_output_wiring :
+  forall (P : prims) (w : world) (i : option text) (F : text) (e : bool),
+  i <> Some F ->
+  status (cmd_pass_decrypt P w {| po_infile := i; po_outfile := (Some F); po_env_pass := e |}) = status (cmd_pass_decrypt P w {| po_infile := i; po_outfile := None; po_env_pass := e |}) /\
+  exit_code (cmd_pass_decrypt P w {| po_infile := i; po_outfile := (Some F); po_env_pass := e |}) = exit_code (cmd_pass_decrypt P w {| po_infile := i; po_outfile := None; po_env_pass := e |}) /\
+  stdout (cmd_pass_decrypt P w {| po_infile := i; po_outfile := (Some F); po_env_pass := e |}) = [] /\ new_fs (cmd_pass_decrypt P w {| po_infile := i; po_outfile := None; po_env_pass := e |}) = fs w /\
+  (forall q, q <> F -> fs_get (new_fs (cmd_pass_decrypt P w {| po_infile := i; po_outfile := (Some F); po_env_pass := e |})) q = fs_get (fs w) q) /\
+  (forall j, pass_decrypt_plan w {| po_infile := i; po_outfile := None; po_env_pass := e |} = inr j -> sink_touched (snd (run_pdec P j)) = true ->
+     fs_get (new_fs (cmd_pass_decrypt P w {| po_infile := i; po_outfile := (Some F); po_env_pass := e |})) F = Some (stdout (cmd_pass_decrypt P w {| po_infile := i; po_outfile := None; po_env_pass := e |}))) /\
+  (forall j, pass_decrypt_plan w {| po_infile := i; po_outfile := None; po_env_pass := e |} = inr j -> sink_touched (snd (run_pdec P j)) = false -> new_fs (cmd_pass_decrypt P w {| po_infile := i; po_outfile := (Some F); po_env_pass := e |}) = fs w) /\
+  (is_success (status (cmd_pass_decrypt P w {| po_infile := i; po_outfile := None; po_env_pass := e |})) = true -> fs_get (new_fs (cmd_pass_decrypt P w {| po_infile := i; po_outfile := (Some F); po_env_pass := e |})) F = Some (stdout (cmd_pass_decrypt P w {| po_infile := i; po_outfile := None; po_env_pass := e |}))).
+Proof. exact pass_decrypt_output_wiring. Qed.
+Print Assumptions C12_pass_decrypt_output_wiring.
+
+(* output wiring, encrypt (same random blocks) *)
+Theorem C12_encrypt_output_wiring :
+  forall (P : prims) (pk_ok sk_ok : text -> bool) (unlock : text -> bytes -> outcome kerr bytes)
+         (decode_pk : text -> outcome kerr bytes) (utf8_decode : bytes -> option text)
+         (w : world) (i : option text) (t f F : text) (k : option text) (e : bool) (fpk fe : bytes),
+  i <> Some F ->
+  status (cmd_encrypt P pk_ok sk_ok unlock decode_pk utf8_decode w {| eo_infile := i; eo_to := t; eo_from := f; eo_outfile := (Some F); eo_keyring := k; eo_env_pass := e |} fpk fe) = status (cmd_encrypt P pk_ok sk_ok unlock decode_pk utf8_decode w {| eo_infile := i; eo_to := t; eo_from := f; eo_outfile := None; eo_keyring := k; eo_env_pass := e |} fpk fe) /\
+  exit_code (cmd_encrypt P pk_ok sk_ok unlock decode_pk utf8_decode w {| eo_infile := i; eo_to := t; eo_from := f; eo_outfile := (Some F); eo_keyring := k; eo_env_pass := e |} fpk fe) = exit_code (cmd_encrypt P pk_ok sk_ok unlock decode_pk utf8_decode w {| eo_infile := i; eo_to := t; eo_from := f; eo_outfile := None; eo_keyring := k; eo_env_pass := e |} fpk fe) /\
+  stdout (cmd_encrypt P pk_ok sk_ok unlock decode_pk utf8_decode w {| eo_infile := i; eo_to := t; eo_from := f; eo_outfile := (Some F); eo_keyring := k; eo_env_pass := e |} fpk fe) = [] /\ new_fs (cmd_encrypt P pk_ok sk_ok unlock decode_pk utf8_decode w {| eo_infile := i; eo_to := t; eo_from := f; eo_outfile := None; eo_keyring := k; eo_env_pass := e |} fpk fe) = fs w /\
+  (forall q, q <> F -> fs_get (new_fs (cmd_encrypt P pk_ok sk_ok unlock decode_pk utf8_decode w {| eo_infile := i; eo_to := t; eo_from := f; eo_outfile := (Some F); eo_keyring := k; eo_env_pass := e |} fpk fe)) q = fs_get (fs w) q) /\
+  (forall j, encrypt_plan pk_ok sk_ok unlock decode_pk utf8_decode w {| eo_infile := i; eo_to := t; eo_from := f; eo_outfile := None; eo_keyring := k; eo_env_pass := e |} = inr j -> sink_touched (snd (run_enc P fpk fe j)) = true ->
+     fs_get (new_fs (cmd_encrypt P pk_ok sk_ok unlock decode_pk utf8_decode w {| eo_infile := i; eo_to := t; eo_from := f; eo_outfile := (Some F); eo_keyring := k; eo_env_pass := e |} fpk fe)) F = Some (stdout (cmd_encrypt P pk_ok sk_ok unlock decode_pk utf8_decode w {| eo_infile := i; eo_to := t; eo_from := f; eo_outfile := None; eo_keyring := k; eo_env_pass := e |} fpk fe))) /\
+  (forall j, encrypt_plan pk_ok sk_ok unlock decode_pk utf8_decode w {| eo_infile := i; eo_to := t; eo_from := f; eo_outfile := None; eo_keyring := k; eo_env_pass := e |} = inr j -> sink_touched (snd (run_enc P fpk fe j)) = false -> new_fs (cmd_encrypt P pk_ok sk_ok unlock decode_pk utf8_decode w {| eo_infile := i; eo_to := t; eo_from := f; eo_outfile := (Some F); eo_keyring := k; eo_env_pass := e |} fpk fe) = fs w) /\
+  (is_success (status (cmd_encrypt P pk_ok sk_ok unlock decode_pk utf8_decode w {| eo_infile := i; eo_to := t; eo_from := f; eo_outfile := None; eo_keyring := k; eo_env_pass := e |} fpk fe)) = true -> fs_get (new_fs (cmd_encrypt P pk_ok sk_ok unlock decode_pk utf8_decode w {| eo_infile := i; eo_to := t; eo_from := f; eo_outfile := (Some F); eo_keyring := k; eo_env_pass := e |} fpk fe)) F = Some (stdout (cmd_encrypt P pk_ok sk_ok unlock decode_pk utf8_decode w {| eo_infile := i; eo_to := t; eo_from := f; eo_outfile := None; eo_keyring := k; eo_env_pass := e |} fpk fe))).
+Proof. exact encrypt_output_wiring. Qed.
+Print Assumptions C12_encrypt_output_wiring.
+
+(* output wiring, password encrypt (same salt) *)
+Theorem C12_pass_encrypt_output_wiring :
+  forall (P : prims) (w : world) (i : option text) (F : text) (e : bool) (salt : bytes),
+  i <> Some F ->
+  status (cmd_pass_encrypt P w {| po_infile := i; po_outfile := (Some F); po_env_pass := e |} salt) = status (cmd_pass_encrypt P w {| po_infile := i; po_outfile := None; po_env_pass := e |} salt) /\
+  exit_code (cmd_pass_encrypt P w {| po_infile := i; po_outfile := (Some F); po_env_pass := e |} salt) = exit_code (cmd_pass_encrypt P w {| po_infile := i; po_outfile := None; po_env_pass := e |} salt) /\
+  stdout (cmd_pass_encrypt P w {| po_infile := i; po_outfile := (Some F); po_env_pass := e |} salt) = [] /\ new_fs (cmd_pass_encrypt P w {| po_infile := i; po_outfile := None; po_env_pass := e |} salt) = fs w /\
+  (forall q, q <> F -> fs_get (new_fs (cmd_pass_encrypt P w {| po_infile := i; po_outfile := (Some F); po_env_pass := e |} salt)) q = fs_get (fs w) q) /\
+  (forall j, pass_encrypt_plan w {| po_infile := i; po_outfile := None; po_env_pass := e |} salt = inr j -> sink_touched (snd (run_penc P salt j)) = true ->
+     fs_get (new_fs (cmd_pass_encrypt P w {| po_infile := i; po_outfile := (Some F); po_env_pass := e |} salt)) F = Some (stdout (cmd_pass_encrypt P w {| po_infile := i; po_outfile := None; po_env_pass := e |} salt))) /\
+  (forall j, pass_encrypt_plan w {| po_infile := i; po_outfile := None; po_env_pass := e |} salt = inr j -> sink_touched (snd (run_penc P salt j)) = false -> new_fs (cmd_pass_encrypt P w {| po_infile := i; po_outfile := (Some F); po_env_pass := e |} salt) = fs w) /\
+  (is_success (status (cmd_pass_encrypt P w {| po_infile := i; po_outfile := None; po_env_pass := e |} salt)) = true -> fs_get (new_fs (cmd_pass_encrypt P w {| po_infile := i; po_outfile := (Some F); po_env_pass := e |} salt)) F = Some (stdout (cmd_pass_encrypt P w {| po_infile := i; po_outfile := None; po_env_pass := e |} salt))).
+Proof. exact pass_encrypt_output_wiring. Qed.
+Print Assumptions C12_pass_encrypt_output_wiring.
+
+(* keyring wiring, decrypt: -k K, or KESTREL_KEYRING = K without -k (whatever the variable held when -k is given): the SAME result record *)
+Theorem C12_decrypt_keyring_wiring :
+  forall (P : prims) (pk_ok sk_ok : text -> bool) (unlock : text -> bytes -> outcome kerr bytes)
+         (decode_pk : text -> outcome kerr bytes) (encode_pk : bytes -> text) (utf8_decode : bytes -> option text)
+         (fsy : fsys) (ep enp : option bytes) (ek : option text) (sin : bytes) (i : option text) (t : text)
+         (out : option text) (K : text) (e : bool),
+  cmd_decrypt P pk_ok sk_ok unlock decode_pk encode_pk utf8_decode {| fs := fsy; env_password := ep; env_new_password := enp; env_keyring := ek; stdin := sin |} {| do_infile := i; do_to := t; do_outfile := out; do_keyring := (Some K); do_env_pass := e |}
+  = cmd_decrypt P pk_ok sk_ok unlock decode_pk encode_pk utf8_decode {| fs := fsy; env_password := ep; env_new_password := enp; env_keyring := (Some K); stdin := sin |} {| do_infile := i; do_to := t; do_outfile := out; do_keyring := None; do_env_pass := e |}.
+Proof. exact decrypt_keyring_wiring. Qed.
+Print Assumptions C12_decrypt_keyring_wiring.
+
+(* keyring wiring, encrypt *)
+Theorem C12_encrypt_keyring_wiring :
+  forall (P : prims) (pk_ok sk_ok : text -> bool) (unlock : text -> bytes -> outcome kerr bytes)
+         (decode_pk : text -> outcome kerr bytes) (utf8_decode : bytes -> option text)
+         (fsy : fsys) (ep enp : option bytes) (ek : option text) (sin : bytes) (i : option text) (t f : text)
+         (out : option text) (K : text) (e : bool) (fpk fe : bytes),
+  cmd_encrypt P pk_ok sk_ok unlock decode_pk utf8_decode {| fs := fsy; env_password := ep; env_new_password := enp; env_keyring := ek; stdin := sin |} {| eo_infile := i; eo_to := t; eo_from := f; eo_outfile := out; eo_keyring := (Some K); eo_env_pass := e |} fpk fe
+  = cmd_encrypt P pk_ok sk_ok unlock decode_pk utf8_decode {| fs := fsy; env_password := ep; env_new_password := enp; env_keyring := (Some K); stdin := sin |} {| eo_infile := i; eo_to := t; eo_from := f; eo_outfile := out; eo_keyring := None; eo_env_pass := e |} fpk fe.
+Proof. exact encrypt_keyring_wiring. Qed.
+Print Assumptions C12_encrypt_keyring_wiring.
+
+(* the password commands do not read the keyring at all *)
+Theorem C12_pass_commands_ignore_keyring :
+  forall (P : prims) (fsy : fsys) (ep enp : option bytes) (ek ek' : option text) (sin : bytes) (o : pw_opts) (salt : bytes),
+  cmd_pass_decrypt P {| fs := fsy; env_password := ep; env_new_password := enp; env_keyring := ek; stdin := sin |} o
+  = cmd_pass_decrypt P {| fs := fsy; env_password := ep; env_new_password := enp; env_keyring := ek'; stdin := sin |} o /\
+  cmd_pass_encrypt P {| fs := fsy; env_password := ep; env_new_password := enp; env_keyring := ek; stdin := sin |} o salt
+  = cmd_pass_encrypt P {| fs := fsy; env_password := ep; env_new_password := enp; env_keyring := ek'; stdin := sin |} o salt.
+Proof. exact pass_commands_ignore_keyring. Qed.
+Print Assumptions C12_pass_commands_ignore_keyring.
+
+(* command aliases parse to the same command: enc/encrypt, dec/decrypt, pass/password, key gen/generate,
+   password enc/encrypt, password dec/decrypt, -v/--version (for EVERY remaining argument list) *)
+Theorem C12_aliases :
+  forall (prog : text) (rest : list text),
+  cli_parse (prog :: s_enc :: rest) = cli_parse (prog :: s_encrypt :: rest) /\
+  cli_parse (prog :: s_dec :: rest) = cli_parse (prog :: s_decrypt :: rest) /\
+  cli_parse (prog :: s_pass :: rest) = cli_parse (prog :: s_password :: rest) /\
+  cli_parse (prog :: s_key :: s_gen :: rest) = cli_parse (prog :: s_key :: s_generate :: rest) /\
+  cli_parse (prog :: s_password :: s_enc :: rest) = cli_parse (prog :: s_password :: s_encrypt :: rest) /\
+  cli_parse (prog :: s_password :: s_dec :: rest) = cli_parse (prog :: s_password :: s_decrypt :: rest) /\
+  cli_parse (prog :: s_version_short :: rest) = cli_parse (prog :: s_version_long :: rest).
+Proof. exact all_aliases. Qed.
+Print Assumptions C12_aliases.
+
+(* hence the whole program (exit code, file system, stdout, status) is the same under every alias *)
+Theorem C12_main_aliases :
+  forall (P : prims) (pk_ok sk_ok : text -> bool) (unlock : text -> bytes -> outcome kerr bytes)
+         (lock : bytes -> bytes -> bytes -> text) (decode_pk : text -> outcome kerr bytes) (encode_pk : bytes -> text)
+         (sk_string_ok : text -> bool) (utf8_decode : bytes -> option text) (utf8_encode : text -> bytes) (help_text version_text : bytes)
+         (w : world) (prog : text) (rest : list text) (r1 r2 : bytes),
+  cli_main P pk_ok sk_ok unlock lock decode_pk encode_pk sk_string_ok utf8_decode utf8_encode help_text version_text w (prog :: s_enc :: rest) r1 r2
+    = cli_main P pk_ok sk_ok unlock lock decode_pk encode_pk sk_string_ok utf8_decode utf8_encode help_text version_text w (prog :: s_encrypt :: rest) r1 r2 /\
+  cli_main P pk_ok sk_ok unlock lock decode_pk encode_pk sk_string_ok utf8_decode utf8_encode help_text version_text w (prog :: s_dec :: rest) r1 r2
+    = cli_main P pk_ok sk_ok unlock lock decode_pk encode_pk sk_string_ok utf8_decode utf8_encode help_text version_text w (prog :: s_decrypt :: rest) r1 r2 /\
+  cli_main P pk_ok sk_ok unlock lock decode_pk encode_pk sk_string_ok utf8_decode utf8_encode help_text version_text w (prog :: s_pass :: rest) r1 r2
+    = cli_main P pk_ok sk_ok unlock lock decode_pk encode_pk sk_string_ok utf8_decode utf8_encode help_text version_text w (prog :: s_password :: rest) r1 r2 /\
+  cli_main P pk_ok sk_ok unlock lock decode_pk encode_pk sk_string_ok utf8_decode utf8_encode help_text version_text w (prog :: s_key :: s_gen :: rest) r1 r2
+    = cli_main P pk_ok sk_ok unlock lock decode_pk encode_pk sk_string_ok utf8_decode utf8_encode help_text version_text w (prog :: s_key :: s_generate :: rest) r1 r2 /\
+  cli_main P pk_ok sk_ok unlock lock decode_pk encode_pk sk_string_ok utf8_decode utf8_encode help_text version_text w (prog :: s_password :: s_enc :: rest) r1 r2
+    = cli_main P pk_ok sk_ok unlock lock decode_pk encode_pk sk_string_ok utf8_decode utf8_encode help_text version_text w (prog :: s_password :: s_encrypt :: rest) r1 r2 /\
+  cli_main P pk_ok sk_ok unlock lock decode_pk encode_pk sk_string_ok utf8_decode utf8_encode help_text version_text w (prog :: s_password :: s_dec :: rest) r1 r2
+    = cli_main P pk_ok sk_ok unlock lock decode_pk encode_pk sk_string_ok utf8_decode utf8_encode help_text version_text w (prog :: s_password :: s_decrypt :: rest) r1 r2 /\
+  cli_main P pk_ok sk_ok unlock lock decode_pk encode_pk sk_string_ok utf8_decode utf8_encode help_text version_text w (prog :: s_version_short :: rest) r1 r2
+    = cli_main P pk_ok sk_ok unlock lock decode_pk encode_pk sk_string_ok utf8_decode utf8_encode help_text version_text w (prog :: s_version_long :: rest) r1 r2.
+Proof. intros; apply cli_main_aliases. Qed.
+Print Assumptions C12_main_aliases.
+
+(* option spelling and order, `decrypt`: an invocation is a list of ITEMS (Model/CliParseSpec.v: -t/--to, -o/--output,
+   -k/--keyring each with flags long-or-short name, one-or-two dashes, separate-or-'=' value; --env-pass with one or two
+   dashes; a file argument that does not look like an option); drender gives the argument vector, dmean forgets the
+   spelling.  Same items up to spelling, in ANY order => same parse result (same options record or same usage error) *)
+Theorem C12_parse_decrypt_spelling :
+  forall its1 its2 : list ditem,
+  Forall ditem_ok its1 -> Forall ditem_ok its2 ->
+  Permutation (map dmean its1) (map dmean its2) ->
+  parse_decrypt (drender its1) = parse_decrypt (drender its2).
+Proof. exact parse_decrypt_spelling. Qed.
+Print Assumptions C12_parse_decrypt_spelling.
+
+(* the same for `encrypt` (-t, -f, -o, -k, --env-pass, file) *)
+Theorem C12_parse_encrypt_spelling :
+  forall its1 its2 : list eitem,
+  Forall eitem_ok its1 -> Forall eitem_ok its2 ->
+  Permutation (map emean its1) (map emean its2) ->
+  parse_encrypt (erender its1) = parse_encrypt (erender its2).
+Proof. exact parse_encrypt_spelling. Qed.
+Print Assumptions C12_parse_encrypt_spelling.
+
+(* the same for `password encrypt` / `password decrypt` (-o, --env-pass, file) *)
+Theorem C12_parse_pass_spelling :
+  forall its1 its2 : list pitem,
+  Forall pitem_ok its1 -> Forall pitem_ok its2 ->
+  Permutation (map pmean its1) (map pmean its2) ->
+  parse_pass_common (prender its1) = parse_pass_common (prender its2).
+Proof. exact parse_pass_spelling. Qed.
+Print Assumptions C12_parse_pass_spelling.
+
+(* the same for `key generate` (-o, --env-pass) *)
+Theorem C12_parse_key_gen_spelling :
+  forall its1 its2 : list pitem,
+  Forall pitem_ok its1 -> Forall pitem_ok its2 ->
+  Permutation (map pmean its1) (map pmean its2) ->
+  parse_key (s_generate :: prender its1) = parse_key (s_generate :: prender its2).
+Proof. exact parse_key_gen_spelling. Qed.
+Print Assumptions C12_parse_key_gen_spelling.
+
+(* the literal form for decrypt: -t, -o, -k each in any of its 8 spellings, --env-pass with one or two dashes, a file,
+   in every order, give this options record *)
+Theorem C12_parse_decrypt_all_forms :
+  forall (l1 d1 e1 l2 d2 e2 l3 d3 e3 d4 : bool) (t o k f : text) (its : list ditem),
+  is_arg f = false ->
+  Permutation its [DTo l1 d1 e1 t; DOut l2 d2 e2 o; DKeyring l3 d3 e3 k; DEnvPass d4; DFile f] ->
+  parse_decrypt (drender its) = Ok (mk_decrypt_opts (Some f) t (Some o) (Some k) true).
+Proof. exact parse_decrypt_all_forms. Qed.
+Print Assumptions C12_parse_decrypt_all_forms.
+
+(* whole argument vectors of `kestrel decrypt` (no -h/--help among the arguments): same parse *)
+Theorem C12_cli_decrypt_spelling :
+  forall (prog : text) (its1 its2 : list ditem),
+  Forall ditem_ok its1 -> Forall ditem_ok its2 ->
+  Permutation (map dmean its1) (map dmean its2) ->
+  (forall h, h = s_help_long \/ h = s_help_short ->
+             ~ In h (prog :: drender its1) /\ ~ In h (prog :: drender its2)) ->
+  cli_parse (prog :: s_decrypt :: drender its1) = cli_parse (prog :: s_decrypt :: drender its2).
+Proof. exact cli_decrypt_spelling. Qed.
+Print Assumptions C12_cli_decrypt_spelling.
+
+(* hence the same result of the whole program *)
+Theorem C12_main_decrypt_spelling :
+  forall (P : prims) (pk_ok sk_ok : text -> bool) (unlock : text -> bytes -> outcome kerr bytes)
+         (lock : bytes -> bytes -> bytes -> text) (decode_pk : text -> outcome kerr bytes) (encode_pk : bytes -> text)
+         (sk_string_ok : text -> bool) (utf8_decode : bytes -> option text) (utf8_encode : text -> bytes) (help_text version_text : bytes)
+         (w : world) (prog : text) (its1 its2 : list ditem) (r1 r2 : bytes),
+  Forall ditem_ok its1 -> Forall ditem_ok its2 ->
+  Permutation (map dmean its1) (map dmean its2) ->
+  (forall h, h = s_help_long \/ h = s_help_short ->
+             ~ In h (prog :: drender its1) /\ ~ In h (prog :: drender its2)) ->
+  cli_main P pk_ok sk_ok unlock lock decode_pk encode_pk sk_string_ok utf8_decode utf8_encode help_text version_text w (prog :: s_decrypt :: drender its1) r1 r2
+  = cli_main P pk_ok sk_ok unlock lock decode_pk encode_pk sk_string_ok utf8_decode utf8_encode help_text version_text w (prog :: s_decrypt :: drender its2) r1 r2.
+Proof. intros until r2; apply cli_main_decrypt_spelling. Qed.
+Print Assumptions C12_main_decrypt_spelling.
+
+(* the glue: a parsed decrypt command runs Cli.cmd_decrypt on the converted options record (dec_opts_of copies the five fields) *)
+Theorem C12_main_runs_decrypt :
+  forall (P : prims) (pk_ok sk_ok : text -> bool) (unlock : text -> bytes -> outcome kerr bytes)
+         (lock : bytes -> bytes -> bytes -> text) (decode_pk : text -> outcome kerr bytes) (encode_pk : bytes -> text)
+         (sk_string_ok : text -> bool) (utf8_decode : bytes -> option text) (utf8_encode : text -> bytes) (help_text version_text : bytes)
+         (w : world) (argv : list text) (r1 r2 : bytes) (d : decrypt_opts),
+  cli_parse argv = Ok (CDecrypt d) ->
+  cli_main P pk_ok sk_ok unlock lock decode_pk encode_pk sk_string_ok utf8_decode utf8_encode help_text version_text w argv r1 r2
+  = of_cmd (cmd_decrypt P pk_ok sk_ok unlock decode_pk encode_pk utf8_decode w (dec_opts_of d)).
+Proof. intros until d; apply cli_main_decrypt. Qed.
+Print Assumptions C12_main_runs_decrypt.
